@@ -258,14 +258,15 @@ def _decode_data(data, encoding):
 def read_str_coding(source):
     # as defined by PEP-263 (https://www.python.org/dev/peps/pep-0263/)
     CODING_LINE_PATTERN = b"^[ \t\f]*#.*?coding[:=][ \t]*([-_.a-zA-Z0-9]+)"
+    LINE_BREAK_PATTERN = b"\r\n|\r|\n"
 
     if type(source) == bytes:
-        newline = b"\n"
         CODING_LINE_PATTERN = re.compile(CODING_LINE_PATTERN)
+        LINE_BREAK_PATTERN = re.compile(LINE_BREAK_PATTERN)
     else:
-        newline = "\n"
         CODING_LINE_PATTERN = re.compile(CODING_LINE_PATTERN.decode("ascii"))
-    for line in source.split(newline, 2)[:2]:
+        LINE_BREAK_PATTERN = re.compile(LINE_BREAK_PATTERN.decode("ascii"))
+    for line in LINE_BREAK_PATTERN.split(source, 2)[:2]:
         match = CODING_LINE_PATTERN.match(line)
         if match:
             coding = match.group(1)
